@@ -112,6 +112,12 @@ PEnd(s, n) ==
 (* ------------------------------------------------------------------ actions *)
 Init == stack = <<>> /\ ps = "start" /\ perr = "" /\ events = <<>> /\ gram = TRUE /\ errAt = 0 /\ dev = {}
 
+(* second entry point: start inside <points-observations>, so that the bound is spent on clusters *)
+InitInner == /\ stack = <<[tag |-> "gama-local", n |-> 1, cov |-> FALSE], [tag |-> "network", n |-> 1, cov |-> FALSE],
+                          [tag |-> "points-observations", n |-> 0, cov |-> FALSE]>>
+             /\ ps = "point_obs" /\ perr = "" /\ gram = TRUE /\ errAt = 0 /\ dev = {}
+             /\ events = <<[e |-> "open", tag |-> "gama-local"], [e |-> "open", tag |-> "network"], [e |-> "open", tag |-> "points-observations"]>>
+
 Ctx == IF stack = <<>> THEN "root" ELSE stack[Len(stack)].tag
 (* a grammar violation that the parser does not refuse is a deviation *)
 Note(ok, what) == dev' = IF ~ok /\ ps' # "error" THEN dev \cup {<<Ctx, what>>} ELSE dev
@@ -160,6 +166,7 @@ Leaf(tag) ==
 
 Next == (\E t \in Tags : Open(t) \/ Leaf(t)) \/ Close
 Spec == Init /\ [][Next]_vars
+SpecInner == InitInner /\ [][Next]_vars
 
 (* --------------------------------------------------------------- invariants *)
 Inclusion == gram => ps # "error"
